@@ -59,6 +59,12 @@ OPS = {
     "interface_fragment_reaching_a_member_type_only_through_a_spread": "fragment OnBot on Bot { model } fragment OnNode on Node { ...OnBot } query Q { nodes { ...OnNode } }",
     "member_fragment_spread_inside_an_unpacked_fragment_on_the_interface":
         "fragment F0Doc on Doc { al1: pages al2: label } fragment F1Pic on Pic { al3: label stamp } fragment F2Labeled on Labeled { label ... on Doc { ...F0Doc } ...F1Pic } query Q { labels { ...F2Labeled } }",
+    # several fields of one interface type in ONE operation, each with its own set of member classes (the typename literal of the
+    # interface class lists the possible types that got no class of their own - per field)
+    "interface_fields_with_different_member_classes":
+        "fragment NF on Node { id } query Q { a: node { id ... on User { name } } b: node { ...NF ... on Bot { model } } c: nodes { id ... on Ghost { id } } d: node { ...NF } }",
+    # fragments on an interface that select __typename themselves (directly / through a chain on the same interface)
+    "interface_fragment_selecting_typename": "fragment NodeF on Node { __typename id } fragment NodeG on Node { ...NodeF } query Q { node { ...NodeF } nodes { ...NodeG } me { ...NodeF } }",
     "skip_with_literal_conditions": "query Q { me { id name @skip(if: true) score @include(if: false) role @include(if: true) seen @skip(if: false) } }",
 }
 KNOWN_OPS = {
@@ -283,6 +289,26 @@ def _type_at(schema, op_text, path):
     return cands[0][0], (conditional[0] if conditional else cands[0][1])
 
 
+def _check_fragment_bases(obj, problems):
+    """C08: an object whose class inherits the class generated for a fragment is an instance of it, and that class alone
+    validates the same payload"""
+    if isinstance(obj, list):
+        for x in obj:
+            _check_fragment_bases(x, problems)
+        return
+    if not isinstance(obj, pydantic.BaseModel):
+        return
+    payload = obj.model_dump(by_alias=True, mode="json", exclude_unset=True)
+    for base in type(obj).__mro__[1:]:
+        if base.__module__.endswith(".fragments"):
+            try:
+                base.model_validate(payload)
+            except pydantic.ValidationError as e:
+                problems.append(dict(fragment_class=base.__name__, object_class=type(obj).__name__, payload=payload, error=str(e)[:300]))
+    for name in type(obj).model_fields:
+        _check_fragment_bases(getattr(obj, name, None), problems)
+
+
 def check_operation(name, text, snake=True, with_corruptions=True):
     rep = dict(inputs={"scenario": name, "convert_to_snake_case": snake}, failed=[], undetermined=[], pre_ok=True, outcome={}, error=None)
     g = None
@@ -319,6 +345,12 @@ def check_operation(name, text, snake=True, with_corruptions=True):
             if problems:
                 rep["failed"].append("instance-of-the-class-for-its-runtime-type")
                 rep["outcome"]["typename"] = problems[:3]
+                break
+            problems = []
+            _check_fragment_bases(m, problems)
+            if problems:
+                rep["failed"].append("fragment-class-alone-validates-the-same-payload")
+                rep["outcome"]["fragment_bases"] = problems[:3]
                 break
             problems = []
             _check_enums(m, problems)
